@@ -160,9 +160,19 @@ func (p *Parser) parseHeader(data []byte) (header *parser.PacketHeader, buf []by
 		end := start + 1
 		found = false
 
+		escaped := false
 		for ; end < len(data); end++ {
 			c := data[end]
-			if c == '"' && data[end-1] != '\\' {
+			if escaped {
+				// This byte is escaped by the backslash before it.
+				escaped = false
+				continue
+			}
+			if c == '\\' {
+				escaped = true
+				continue
+			}
+			if c == '"' {
 				b := data[start : end+1]
 
 				tmp = make([]byte, len(b)+2)
